@@ -1,1 +1,2 @@
 import QscModel
+import QscProofs.P
